@@ -214,6 +214,16 @@ static void check_string(const std::string &t, int radix, long long &ev)
     }
 }
 
+// the array overload of toString; reports and returns false on a discrepancy
+static bool check_array(const E *arr, uint64_t len, int radix)
+{
+    std::string t = Goldilocks::toString(arr, len, radix), ex, vals;
+    for (uint64_t k = 0; k < len; k++) { ex += std::to_string(k) + ": " + mz(arr[k].fe % GP).get_str(radix) + "\n"; vals += (k ? "," : "") + hex(arr[k].fe); }
+    if (t == ex) return true;
+    rep().viol("C15.wrong.toString.array", fmt("kind=arr radix=%d vals=%s", radix, vals.c_str()), "text differs from the canonical values of the elements: " + t.substr(0, 120));
+    return false;
+}
+
 static int run_one(const Args &args)
 {
     auto m = parse_case(args.one);
@@ -225,6 +235,13 @@ static int run_one(const Args &args)
     else if (k == "s64") check_raw((u64)strtoll(cs(m, "v").c_str(), 0, 10), ev);
     else if (k == "int") check_integer(mpz_class(cs(m, "z"), 10), (int)cu(m, "radix"), ev);
     else if (k == "str") check_string(cs(m, "s"), (int)cu(m, "radix"), ev);
+    else if (k == "arr")
+    {
+        std::vector<u64> v = culist(m, "vals");
+        std::vector<E> a(v.size() + 1);
+        for (size_t i = 0; i < v.size(); i++) a[i].fe = v[i];
+        check_array(a.data(), v.size(), (int)cu(m, "radix"));
+    }
     rep().flush();
     return 0;
 }
@@ -290,6 +307,28 @@ int main(int argc, char **argv)
         R.erase(std::unique(R.begin(), R.end()), R.end());
         long long ev = 0, nt = 0;
         for (size_t i = 0; i < R.size(); i++) { check_raw(R[i], ev); if (R[i] >= GP) nt++; } // sequential: results must not depend on who else is converting
+        // the array overload toString(const Element*, size, radix): "i: <canonical value in the radix>\n" per element
+        {
+            long long na = 0;
+            for (size_t i0 = 0; i0 + 8 <= R.size(); i0 += 61)
+                for (int radix : {10, 16, 2, 36, 8})
+                {
+                    E arr[8];
+                    for (int k = 0; k < 8; k++) arr[k].fe = R[i0 + k];
+                    for (uint64_t len : {(uint64_t)0, (uint64_t)1, (uint64_t)8})
+                    {
+                        ev++;
+                        na++;
+                        if (!check_array(arr, len, radix))
+                        {
+                            i0 = R.size();
+                            break;
+                        }
+                    }
+                    if (i0 >= R.size()) break;
+                }
+            rep().stat("array_toString_calls", na);
+        }
         // the same conversions with a digit-grouping global locale installed (as an application that calls std::locale::global does)
         set_locale(1);
         for (size_t i = 0; i < R.size(); i += 3) check_raw(R[i], ev);
